@@ -31,8 +31,9 @@ def main():
     others = []
     if "--other" in sys.argv:
         others = sys.argv[sys.argv.index("--other") + 1:]
-    src = Path(f"/tmp/seedout_{pid}/{k}")
-    wt = Path(f"/tmp/seed_{pid}")
+    rnd = "B" if int(k) >= 3 else ""       # second round of seeding: k = 3, 4
+    src = Path(f"/tmp/seedout{rnd}_{pid}/{k}")
+    wt = Path(f"/tmp/seed{rnd}_{pid}")
     dst = VERIF / "seeded" / f"{pid}-{k}"
     meta = {"property": pid, "source": "independent sub-agent given only the property text and a scratch worktree"}
     env = dict(os.environ, PYTHONPATH=str(wt), MPLBACKEND="Agg")
@@ -52,8 +53,16 @@ def main():
         meta["suite_with_change"] = outs.strip().splitlines()[-1] if outs.strip() else ""
     sh("git checkout -- .", cwd=wt)
     ok = rc0 == 0 and rc1 != 0
-    meta["confirmed"] = bool(ok and (nosuite or "536 passed" in meta.get("suite_with_change", "")))
     dst.mkdir(parents=True, exist_ok=True)
+    if nosuite and (dst / "meta.json").exists():
+        # re-evaluation after a check was strengthened: keep the recorded suite result
+        old = json.loads((dst / "meta.json").read_text())
+        if "suite_with_change" in old:
+            meta["suite_with_change"] = old["suite_with_change"]
+        if old.get("first_evaluation") or old.get("check_results"):
+            meta["first_evaluation"] = old.get("first_evaluation") or {
+                "detected_by": old.get("detected_by"), "check_results": old.get("check_results")}
+    meta["confirmed"] = bool(ok and "536 passed" in meta.get("suite_with_change", ""))
     for f in ("patch.diff", "demo.py", "notes.md"):
         if (src / f).exists():
             shutil.copy(src / f, dst / f)
